@@ -367,7 +367,8 @@ def P13(m, R):
 @rule('P23', 'int-guard: int() on text taken from a setting string is dominated by an ASCII-digit guard', floor=1)
 def P23(m, R):
     f = m.fn('AnsiSetting.to_list')
-    sites = [n for n in f.walk() if isinstance(n, ast.Call) and call_name(n) == 'int' and isinstance(n.func, ast.Name)]
+    # (defs nested in to_list count as part of it)
+    sites = [n for n in ast.walk(f.node) if isinstance(n, ast.Call) and call_name(n) == 'int' and isinstance(n.func, ast.Name)]
     if not sites:
         # a convert-or-keep helper called by to_list
         for n in f.walk():
